@@ -45,7 +45,7 @@ def parse_stats(out):
     return st
 
 
-def trace_cfg(open_kf=(), cache='CP_K', invariants=('InvView', 'InvAtomic', 'InvClaims', 'InvCache')):
+def trace_cfg(open_kf=(), cache='CP_K', invariants=()):
     kf = '{' + ', '.join('"%s"' % k for k in sorted(open_kf)) + '}'
     lines = ['SPECIFICATION TraceSpec', 'CONSTANT CachePath <- %s' % cache, 'CONSTANT OpenKF = %s' % kf]
     lines += ['INVARIANT %s' % i for i in invariants]
